@@ -1,6 +1,8 @@
 import Toq.Model.Games
 import Toq.Spec.Games
 import Toq.Proofs.Games
+import Toq.Model.Npa
+import Toq.Proofs.Npa
 import Mathlib.Tactic.NormNum.Basic
 import Mathlib.Tactic.Positivity
 /-!
@@ -9,17 +11,22 @@ import Mathlib.Tactic.Positivity
 Property theorems only (helper lemmas: `Toq/Proofs/Games.lean`; mirror model: `Toq/Model/Games.lean`;
 specification: `Toq/Spec/Games.lean`).
 
-`classicalValue` follows `NonlocalGame.classical_value` line by line, **including** its iteration bound
-`num_iterations = num_alice_outputs ** num_bob_inputs`.  That bound is wrong when (after the role swap) the
-enumerated player has more answers than the other one: strategies are skipped.  Therefore
+`classicalValue` follows `NonlocalGame.classical_value` line by line **as it was before the fix**, including its
+iteration bound `num_iterations = num_alice_outputs ** num_bob_inputs`.  That bound is wrong when (after the role swap)
+the enumerated player has more answers than the other one: strategies are skipped.  Therefore
 
 * the full statement `∀ sizes, classicalValue = maxDetValue` is **false** (`classicalValue_counterexample`);
 * it is proved under the exact completeness condition on the sizes (`classicalValue_eq_maxDet_partial`);
-* the one-token repair `num_bob_outputs ** num_bob_inputs` is proved for all sizes
-  (`classicalValueFixed_eq_maxDet`), and the correspondence harness compares the implementation with the
-  specification `maxDetValue` (through `classicalValueFixed` and the brute force `maxDetBrute`).
+* the code as it is now (`num_bob_outputs ** num_bob_inputs`, mirror `classicalValueFixed`, used by the state machine
+  `step`) is proved for all sizes (`classicalValueFixed_eq_maxDet`), and the correspondence harness compares the
+  implementation with the specification `maxDetValue` (through `classicalValueFixed` and the brute force `maxDetBrute`).
 
-The ordering of the SDP-based values (NPA levels, non-signalling value) is not in this file (certificate part).
+The ordering clause ("classical value ≤ every NPA-level bound ≤ non-signalling value ≤ 1") is the second half of the
+file: the mirror of the constraint generator `npa_constraints` (`Toq/Model/Npa.lean`) is proved **sound** for every
+deterministic strategy at every level (`reduce_preserves_val`, `npa_sound_det`, `classical_le_npa_model`), its
+assemblage part is the non-signalling polytope (`npa_le_ns_model`, `ns_contains_det`) and the non-signalling objective is
+at most 1 (`ns_le_one`).  The tie to the code is the feasibility-embedding stream of the harness: the points of these
+theorems are plugged into the constraint objects that toqito actually builds.
 -/
 namespace Toq.C07
 open Toq.Games Toq.Games.Spec
@@ -162,5 +169,155 @@ theorem value_order_independent (sdp : Game → Op → Option Rat) (g : Game) (h
     (step sdp (run sdp g history).1 op).2 = (step sdp g op).2 := by
   unfold run
   rw [runWith_state (step sdp) (methods_pure sdp) g history]
+
+/-! ## Ordering of the values: soundness of the NPA relaxation and of the non-signalling program
+
+Model: `Toq/Model/Npa.lean` (mirror of `toqito/helper/npa_hierarchy.py`), lemmas: `Toq/Proofs/Npa.lean`.
+A level is `k : LevelArg` (an integer or a string like `'1+ab+aab'`), parsed by `levelSpec` into `(base, conf)`;
+`LevelWF k` says that the extra terms of a string level consist of the letters `a`, `b` (documented form). -/
+section Npa
+open Toq.Npa
+
+/-- **`_reduce` preserves the value of a word under every deterministic strategy** (the heart of the soundness
+    of the hierarchy): for all answer functions `f`, `g` and every word `w`, with `val` = product of the
+    indicator values `[f x = a]`, `[g y = b]` of its symbols (identity symbol ↦ 1):
+    if `_reduce(w)` is a non-empty tuple it has the same value as `w`; if it is the empty tuple and `w`
+    contains a measurement symbol then `w` has value 0 (the code's "zero word"); a word without any
+    measurement symbol has value 1. -/
+theorem reduce_preserves_val (f g : Nat → Nat) (w : Word) :
+    (reduceWord w ≠ [] → val f g (reduceWord w) = val f g w) ∧
+    (reduceWord w = [] → hasMeas w → val f g w = 0) ∧
+    (¬ hasMeas w → val f g w = 1) := by
+  refine ⟨(reduceFuel_val f g _ w).1, (reduceFuel_val f g _ w).2, fun h => ?_⟩
+  have hs : sep w = [] := by
+    by_contra hne
+    exact h ((sep_ne_nil_iff w).mp hne)
+  rw [← val_sep, hs]; rfl
+
+/-- **The NPA constraint generator is sound for deterministic strategies, every size, every level.**
+    For all numbers of answers and questions (`ai`, `bi` ≥ 1), every level `k` of the documented form, every
+    game `(prob, pred)` and every pair of answer functions `(f, g)`: with `z_i = val(words[i])`, the moment
+    matrix `R = z zᵀ` and the behaviour `K(a,b|x,y) = [a = f x][b = g y]` satisfy **every** constraint that the
+    mirror of `npa_constraints` emits (normalisation, forced zeros, entries tied to the assemblage and its
+    marginals, equal entries, `K ≥ 0`, `Σ K = 1`, no-signalling marginals; `R ⪰ 0` holds as a complex Hermitian
+    matrix), and the objective `Σ prob·pred·K` equals the winning probability of `(f, g)`. -/
+theorem npa_sound_det (ao bo ai bi : Nat) (hai : 0 < ai) (hbi : 0 < bi) (k : LevelArg) (hwf : LevelWF k)
+    (base : Nat) (conf : List (Nat × Nat)) (hk : levelSpec k = some (base, conf))
+    (prob : Prob) (pred : Pred) (f : Fin ai → Fin ao) (g : Fin bi → Fin bo) :
+    let words := genWords base conf ao ai bo bi
+    let z := detZ (ext f) (ext g) words
+    let R : Nat → Nat → ℚ := fun i j => z i * z j
+    let K := detK (ext f) (ext g)
+    (∀ c ∈ npaConstraints ao bo ai bi base conf, Sat (PsdQ words.length R) ao bo R K c) ∧
+      PsdQ words.length R ∧
+      objective ao bo ai bi prob pred K = detValue ao bo ai bi prob pred f g := by
+  intro words z R K
+  have hconf := levelSpec_confOK k hwf base conf hk
+  have hok : WordsOK words := genWords_ok base conf ao ai bo bi hconf
+  have hpsd : PsdQ words.length R := psdQ_of_rank_one words.length z
+  have hf : ∀ x, x < ai → ext f x < ao := fun x hx => ext_lt f x hx
+  have hg : ∀ y, y < bi → ext g y < bo := fun y hy => ext_lt g y hy
+  refine ⟨?_, hpsd, ?_⟩
+  · intro c hc
+    unfold npaConstraints at hc
+    rcases List.mem_append.mp hc with h | h
+    · exact momentConstrs_sound (ext f) (ext g) words _ hpsd ao bo hok (hf 0 hai) (hg 0 hbi) c h
+    · exact assemblageConstrs_sound (ext f) (ext g) _ ao bo ai bi R hf hg c h
+  · rw [objective_detK (ext f) (ext g) ao bo ai bi prob pred hf hg]
+    exact detValueN_eq ao bo ai bi prob pred (ext f) (ext g) f g (fun x => ext_val f x) (fun y => ext_val g y)
+
+/-- the levels of the property's quantifier are of the documented form and parse as expected -/
+example : levelSpec (.int 2) = some (2, []) ∧ levelSpec (.str "1+ab") = some (1, [(1, 1)]) ∧
+    levelSpec (.str "1+ab+aab") = some (1, [(1, 1), (2, 1)]) ∧ LevelWF (.int 1) ∧ LevelWF (.str "1+ab") := by
+  refine ⟨rfl, by decide, by decide, trivial, ?_⟩
+  simp only [LevelWF]
+  decide
+
+/-- **classical value ≤ every NPA-level bound (model).**  At every level the relaxation has a feasible point
+    whose objective is the classical value; hence every number `B` that bounds the objective on the feasible set
+    of the level-`k` relaxation (in particular its optimum) is at least the classical value. -/
+theorem classical_le_npa_model (ao bo ai bi : Nat) [NeZero ao] [NeZero bo] (hai : 0 < ai) (hbi : 0 < bi)
+    (k : LevelArg) (hwf : LevelWF k) (base : Nat) (conf : List (Nat × Nat)) (hk : levelSpec k = some (base, conf))
+    (prob : Prob) (pred : Pred) :
+    (∃ (R : Nat → Nat → ℚ) (K : Pred),
+      (∀ c ∈ npaConstraints ao bo ai bi base conf,
+        Sat (PsdQ (genWords base conf ao ai bo bi).length R) ao bo R K c) ∧
+      objective ao bo ai bi prob pred K = maxDetValue ao bo ai bi prob pred) ∧
+    ∀ B : ℚ, (∀ (R : Nat → Nat → ℚ) (K : Pred),
+        (∀ c ∈ npaConstraints ao bo ai bi base conf,
+          Sat (PsdQ (genWords base conf ao ai bo bi).length R) ao bo R K c) →
+        objective ao bo ai bi prob pred K ≤ B) → maxDetValue ao bo ai bi prob pred ≤ B := by
+  obtain ⟨⟨f, g, hfg⟩, _⟩ := maxDetValue_isMaxDet ao bo ai bi prob pred
+  obtain ⟨h1, _, h3⟩ := npa_sound_det ao bo ai bi hai hbi k hwf base conf hk prob pred f g
+  refine ⟨⟨_, _, h1, h3.trans hfg⟩, fun B hB => ?_⟩
+  rw [← hfg, ← h3]
+  exact hB _ _ h1
+
+/-- **Every deterministic behaviour is non-signalling**: `K(a,b|x,y) = [a = f x][b = g y]` satisfies the
+    constraint system of `nonsignaling_value` (marginals `σ(a|x) = [a = f x]`, `ρ(b|y) = [b = g y]`), and the
+    non-signalling objective at it is the strategy's winning probability. -/
+theorem ns_contains_det (ao bo ai bi : Nat) (prob : Prob) (pred : Pred) (f : Fin ai → Fin ao) (g : Fin bi → Fin bo) :
+    NsFeasible ao bo ai bi (detK (ext f) (ext g)) ∧
+      objG ao bo ai bi prob pred (detK (ext f) (ext g)) = detValue ao bo ai bi prob pred f g := by
+  have hf : ∀ x, x < ai → ext f x < ao := fun x hx => ext_lt f x hx
+  have hg : ∀ y, y < bi → ext g y < bo := fun y hy => ext_lt g y hy
+  refine ⟨⟨fun x y a b _ _ _ _ => by unfold detK; split <;> norm_num,
+    fun a x => if ext f x = a then 1 else 0, fun b y => if ext g y = b then 1 else 0, ?_, ?_, ?_, ?_⟩, ?_⟩
+  · intro x y a _ hy _
+    exact sum_detK_bob (ext f) (ext g) bo a x y (hg y hy)
+  · intro x y b hx _ _
+    exact sum_detK_alice (ext f) (ext g) ao b x y (hf x hx)
+  · intro x hx
+    exact sumN_ite_eq ao (ext f x) (fun _ => (1 : ℚ)) (hf x hx)
+  · intro y hy
+    exact sumN_ite_eq bo (ext g y) (fun _ => (1 : ℚ)) (hg y hy)
+  · rw [← objective_eq_objG, objective_detK (ext f) (ext g) ao bo ai bi prob pred hf hg]
+    exact detValueN_eq ao bo ai bi prob pred (ext f) (ext g) f g (fun x => ext_val f x) (fun y => ext_val g y)
+
+/-- **NPA-level bound ≤ non-signalling value (model), any level, any ordered field of values.**  The assemblage
+    part of the constraints emitted by `npa_constraints` *is* the description of the non-signalling polytope used
+    by `nonsignaling_value`: a point `(R, K)` that satisfies the level-`k` constraints (whatever `R ⪰ 0` means)
+    has a non-signalling `K` — and the two programs have the same objective `Σ prob·pred·K` — and conversely every
+    non-signalling `K` satisfies the assemblage constraints. -/
+theorem npa_le_ns_model {α : Type} [Field α] [LinearOrder α] [IsStrictOrderedRing α]
+    (psd : Prop) (ao bo ai bi : Nat) (hai : 0 < ai) (hbi : 0 < bi) (base : Nat) (conf : List (Nat × Nat))
+    (R : Nat → Nat → α) (K : Nat → Nat → Nat → Nat → α) :
+    ((∀ c ∈ npaConstraints ao bo ai bi base conf, Sat psd ao bo R K c) → NsFeasible ao bo ai bi K) ∧
+    (NsFeasible ao bo ai bi K → ∀ c ∈ assemblageConstrs ao bo ai bi, Sat psd ao bo R K c) := by
+  refine ⟨fun h => nsFeasible_of_assemblage psd ao bo ai bi hai hbi R K (fun c hc => h c ?_),
+    assemblage_of_nsFeasible psd ao bo ai bi R K⟩
+  unfold npaConstraints
+  exact List.mem_append_right _ hc
+
+/-- **non-signalling value ≤ 1 (and ≥ 0), any ordered field of values.**  If `prob` is a probability distribution
+    on the question pairs and the predicate has entries in `[0, 1]`, the objective `Σ prob·pred·K` of every
+    non-signalling behaviour `K` (hence of every NPA-feasible point, by `npa_le_ns_model`) lies in `[0, 1]`. -/
+theorem ns_le_one {α : Type} [Field α] [LinearOrder α] [IsStrictOrderedRing α]
+    (ao bo ai bi : Nat) (prob : Nat → Nat → α) (pred K : Nat → Nat → Nat → Nat → α)
+    (hp0 : ∀ x y, x < ai → y < bi → 0 ≤ prob x y)
+    (hp1 : sumN ai (fun x => sumN bi (fun y => prob x y)) = 1)
+    (hv : ∀ a b x y, a < ao → b < bo → x < ai → y < bi → 0 ≤ pred a b x y ∧ pred a b x y ≤ 1)
+    (h : NsFeasible ao bo ai bi K) :
+    0 ≤ objG ao bo ai bi prob pred K ∧ objG ao bo ai bi prob pred K ≤ 1 :=
+  ⟨ns_objective_nonneg ao bo ai bi prob pred K hp0 hv h, ns_objective_le_one ao bo ai bi prob pred K hp0 hp1 hv h⟩
+
+/-- the hypotheses of `ns_le_one` are those of `classical_le_one` (`IsDistribution`, `PredIn01`), and a
+    non-trivial non-signalling behaviour exists: the deterministic one of the counterexample game -/
+example : (∀ x y, x < 2 → y < 1 → 0 ≤ cexProb x y) ∧ sumN 2 (fun x => sumN 1 (fun y => cexProb x y)) = 1 ∧
+    NsFeasible 2 3 2 1 (detK (ext (fun _ : Fin 2 => (1 : Fin 2))) (ext (fun _ : Fin 1 => (2 : Fin 3)))) :=
+  ⟨fun _ _ _ _ => by unfold cexProb; positivity, by simp [sumN, cexProb]; norm_num,
+    (ns_contains_det 2 3 2 1 cexProb cexPred _ _).1⟩
+
+/-- a concrete instance of `npa_sound_det` evaluated by the executable model: sizes `(ao, bo, ai, bi) = (2, 3, 2, 2)`,
+    level `'1+ab'`, strategy `f = (1, 0)`, `g = (2, 0)`: all 122 generated constraints hold at `(z zᵀ, K)` -/
+example :
+    let words := genWords 1 [(1, 1)] 2 2 3 2
+    let f : Nat → Nat := fun x => if x = 0 then 1 else 0
+    let g : Nat → Nat := fun y => if y = 0 then 2 else 0
+    (npaConstraints 2 3 2 2 1 [(1, 1)]).length = 122 ∧
+      (npaConstraints 2 3 2 2 1 [(1, 1)]).all (fun c => c.check 2 3 (detR f g words) (detK f g)) = true := by
+  decide +kernel
+
+end Npa
 
 end Toq.C07
